@@ -2,6 +2,7 @@
 import math
 import cmath
 import copy
+import pickle
 from fractions import Fraction as Fr
 import numpy as np
 from hypothesis import strategies as st
@@ -27,6 +28,13 @@ RULE = ("Laws: generated boxes of dimension 1-4 (normal / point / flat / inverte
         "argument are not scribbled on); nested / equal box pairs (3 in 10); clouds of 1500-4000 points (1 in 5). In the histories each "
         "box a step returns is a handle of its own, so a pad of one handle that changes another handle is reported even when the "
         "library returned the same object twice; macros pad the result of a union / intersection of nested, equal or identical boxes. "
+        "Fifth round: augmented assignment (b |= o, b &= o) in the laws (value, the arrays the box was built from, a box built from its "
+        "corners and the other operand unchanged; accumulation over the rows of one caller array starting from AABB(row, row)) and as "
+        "history op 'box.iop' (the handle is rebound to the result, nothing else may change) with macros on boxes wrapping caller "
+        "arrays / sibling boxes / one array used for both corners; copy.copy / deepcopy / pickle of a box; queries through one buffer "
+        "overwritten in place; planar (2-coordinate) points: a function that answers for them must agree with the same points "
+        "embedded in z=0 and keep angle_3pts in [0,pi] (raising is accepted as 'unsupported'), about 1 case in 8 straddles the negative "
+        "x axis; Python-int angles / coefficients; rotation axes within 1e-6 of unit length. "
         "Side effects: an operation history (2-25 ops over AABB.*, Vec.*, geometry.*, rotations.*, maths.* and a harness-level "
         "numpy.seterr change), arguments either fresh literals (list/tuple/float array/int array/Vec) or references to arrays "
         "and boxes created earlier in the same history (so boxes share caller arrays and other boxes' corners); about one op in "
@@ -414,6 +422,20 @@ def fn_aabb(case, ctx):
                     ctx.check(abs(dv - back) <= 1e-12 * max(dv, back), "AABB.distance:realised-by-projection",
                               f"distance({show(parg)},{which}) = {dv!r} but ||p - project(p)|| = {back!r} with project(p) = {pr!r}, box [{L1},{H1}]")
             ctx.check(snap(parg) == psnap, "AABB:query-changes-point", f"point argument {p} became {show(parg)} after contains_point/project/distance")
+        # the SAME buffer object, overwritten in place between queries (an answer must depend on the values only)
+        buf = np.empty(dim, dtype=float)
+        for p in case["pts"]:
+            buf[:] = p
+            P = np.array(p, float)
+            ok, pr = ctx.call("AABB.project", box1.project, buf)
+            if ok and vec_of(pr, dim) is not None:
+                ctx.check(np.array_equal(vec_of(pr, dim), np.minimum(np.maximum(P, L1), H1)), "AABB.project:reused-buffer",
+                          f"project(buffer holding {p}) = {pr!r} for box [{L1},{H1}] (the buffer held other points before)")
+            ok, d = ctx.call("AABB.distance", box1.distance, buf, "l1")
+            if ok and real(d) is not None:
+                ref = float(sum((max(l - x, x - h, Fr(0)) for x, l, h in zip(fv(P), fv(L1), fv(H1))), Fr(0)))
+                ctx.check(abs(real(d) - ref) <= 1e-12 * max(ref, 1e-300), "AABB.distance:reused-buffer", f"distance(buffer holding {p}, l1) = {d!r}, expected {ref!r}")
+            ctx.check(np.array_equal(buf, P), "AABB:query-changes-point", f"buffer holding {p} became {buf}")
         ctx.label("pts:out" if n_out else "pts:no-out", "pts:face" if n_face else "pts:no-face")
         if n_out and (n_face or n_in):
             ctx.nontrivial()
@@ -456,8 +478,65 @@ def fn_aabb(case, ctx):
             ctx.check(isinstance(di, (bool, np.bool_)) and bool(di) == overlap, "AABB.do_intersect",
                       f"do_intersect({nm}) = {di!r} for [{L1},{H1}] and [{L2},{H2}]: overlap extents {ihi_ref - ilo_ref}")
 
+    # --- augmented assignment: 'b |= o' / 'b &= o' give the union / intersection under the name b and change nothing else:
+    # not the arrays the box was built from, not a box built from its corners, not the other operand
+    for kind, (elo, ehi) in (("ior", (np.minimum(L1, L2), np.maximum(H1, H2))), ("iand", (ilo_ref, ihi_ref))):
+        ina, inb = make(case["b1"][0], form), make(case["b1"][1], form)
+        sa, sb = snap(ina), snap(inb)
+        try:
+            acc = AABB(ina, inb)
+            sib = AABB(acc.mini, acc.maxi)
+        except Exception:
+            break
+
+        def aug(b=acc, kind=kind):
+            if kind == "ior":
+                b |= box2
+            else:
+                b &= box2
+            return b
+        ok, r = ctx.call("AABB.__%s__" % kind, aug)
+        if ok and ctx.check(isinstance(r, AABB), "AABB.__%s__:type" % kind, f"{r!r}"):
+            ctx.label("iop:in-place" if r is acc else "iop:new-object")
+            rlo, rhi = corners(r, "AABB.__%s__" % kind)
+            if rlo is not None:
+                if kind == "iand" or (not inv1 and not inv2):
+                    ctx.check(np.array_equal(rlo, elo) and np.array_equal(rhi, ehi), "AABB.__%s__:value" % kind,
+                              f"b {'|=' if kind == 'ior' else '&='} o with b=[{L1},{H1}], o=[{L2},{H2}] gives [{rlo},{rhi}], expected [{elo},{ehi}]")
+                else:
+                    ctx.check(bool(np.all(rlo <= np.minimum(L1, L2)) and np.all(rhi >= np.maximum(H1, H2))), "AABB.__ior__:value", f"b |= o = [{rlo},{rhi}] does not contain both")
+            ctx.check(snap(ina) == sa and snap(inb) == sb, "AABB.__%s__:changes-constructor-arrays" % kind,
+                      f"b = AABB(lo, hi); b {'|=' if kind == 'ior' else '&='} [{L2},{H2}] changed the caller's arrays to {show(ina)}, {show(inb)}")
+            ctx.check(np.array_equal(np.asarray(sib.mini, float), L1) and np.array_equal(np.asarray(sib.maxi, float), H1), "AABB.__%s__:changes-sibling-box" % kind,
+                      f"c = AABB(b.mini, b.maxi); b {'|=' if kind == 'ior' else '&='} [{L2},{H2}] changed c to {sib!r}")
+    # accumulation over a point set, starting from a point box whose two corners are the same row of the caller's array
+    rows = np.array(case["cloud"], dtype=float).reshape(len(case["cloud"]), dim)
+    rows_before = rows.tobytes()
+
+    def accumulate():
+        acc = AABB(rows[0], rows[0])
+        for q in rows[1:]:
+            acc |= AABB(q, q)
+        return acc
+    ok, acc = ctx.call("AABB.__ior__:accumulate", accumulate)
+    if ok and isinstance(acc, AABB):
+        alo, ahi = corners(acc, "AABB.__ior__:accumulate")
+        ref_rows = np.array(case["cloud"], dtype=float).reshape(len(case["cloud"]), dim)
+        if alo is not None:
+            ctx.check(np.array_equal(alo, ref_rows.min(axis=0)) and np.array_equal(ahi, ref_rows.max(axis=0)), "AABB.__ior__:accumulate",
+                      f"box accumulated with |= over the rows {case['cloud']} is [{alo},{ahi}], expected [{ref_rows.min(axis=0)},{ref_rows.max(axis=0)}]")
+        ctx.check(rows.tobytes() == rows_before, "AABB.__ior__:changes-constructor-arrays", f"accumulating with |= changed the caller's point array to {rows.tolist()}")
+    # copies of a box carry the same corners; a deep copy / pickle round trip is independent of the original
+    for nm, mk_copy, independent in (("copy.copy", copy.copy, False), ("copy.deepcopy", copy.deepcopy, True), ("pickle", lambda b: pickle.loads(pickle.dumps(b)), True)):
+        ok, cp = ctx.call("AABB:" + nm, mk_copy, box1)
+        if ok and ctx.check(isinstance(cp, AABB) and cp is not box1, "AABB:%s:type" % nm, f"{cp!r}"):
+            clo, chi = corners(cp, "AABB:" + nm)
+            if clo is not None:
+                ctx.check(np.array_equal(clo, L1) and np.array_equal(chi, H1), "AABB:%s:value" % nm, f"{nm} of [{L1},{H1}] is {cp!r}")
+            if independent:
+                ctx.call("AABB.pad", cp.pad, 1.0)
     for bb, lo, hi, nm in ((box1, L1, H1, "b1"), (box2, L2, H2, "b2")):
-        ctx.check(np.array_equal(np.asarray(bb.mini, float), lo) and np.array_equal(np.asarray(bb.maxi, float), hi), "AABB:binary-op-changes-box", f"{nm} is now {bb!r} after union/intersection/do_intersect")
+        ctx.check(np.array_equal(np.asarray(bb.mini, float), lo) and np.array_equal(np.asarray(bb.maxi, float), hi), "AABB:binary-op-changes-box", f"{nm} is now {bb!r} after union / intersection / do_intersect / |= / &= / padding a copy")
 
     # --- box of a point set
     cloud = case["cloud"]
@@ -930,7 +1009,8 @@ def angle_case(draw):
     V2 = {"parallel": [2.0 * x for x in V1], "anti": [-1.0 * x for x in V1], "zero": [0.0] * 3}.get(how) or draw(v3)
     s = draw(st.sampled_from(SCALES))                 # every angle is scale invariant
     return {"mode": mode, "V1": scaled(V1, s), "V2": scaled(V2, s), "N": draw(v3), "tri": scaled(draw(triangle_st(mode)), s),
-            "u": scaled(draw(v2), s), "w": scaled(draw(v2), s), "scale": s, "ityped": draw(st.integers(0, 3)) == 0}
+            "u": scaled(draw(v2), s), "w": scaled(draw(v2), s), "scale": s, "ityped": draw(st.integers(0, 3)) == 0,
+            "tri2": scaled([draw(v2), draw(v2), draw(v2)], s)}
 
 
 def kahan_angle(u, w):
@@ -1032,6 +1112,38 @@ def fn_angle(case, ctx):
             ctx.label("corner=flat")
     else:
         ctx.label("corner=degenerate")
+    # ---- points of another dimension: a function that answers for planar points must give what it gives for the same
+    # configuration embedded in the plane z=0 (and an angle of three points stays in [0,pi]); raising is accepted (unsupported)
+    A2, B2, C2 = case.get("tri2") or ([1.0, 0.0], [0.0, 0.0], [0.0, 1.0])
+    d1, d2 = fsub(fv(A2), fv(B2)), fsub(fv(C2), fv(B2))
+    if d1[0] < 0 and d2[0] < 0 and d1[1] * d2[1] < 0:
+        ctx.label("planar=straddles-negative-x-axis")
+    lifts = [("angle_3pts", geom.angle_3pts, [A2, B2, C2]), ("angle_3pts", geom.angle_3pts, [C2, B2, A2]), ("cotan", geom.cotan, [A2, B2, C2]),
+             ("triangle_area", geom.triangle_area, [A2, B2, C2]), ("aspect_ratio", geom.aspect_ratio, [A2, B2, C2]),
+             ("angle_2vec3D", geom.angle_2vec3D, [[float(x) for x in d1], [float(x) for x in d2]]),
+             ("distance", geom.distance, [A2, C2]), ("dot", geom.dot, [A2, C2])]
+    for nm, f, pts in lifts:
+        try:
+            r2 = f(*[V(q) for q in pts])
+        except Exception:
+            ctx.label(nm + ":planar-points-unsupported")
+            continue
+        ctx.label(nm + ":planar-points-supported")
+        try:
+            r3 = f(*[V(list(q) + [0.0]) for q in pts])
+        except Exception:
+            continue
+        g2, g3 = real(r2), real(r3)
+        if g3 is None or not math.isfinite(g3):
+            continue
+        if nm in ("angle_3pts", "angle_2vec3D"):
+            ctx.check(g2 is not None and 0.0 <= g2 <= PI, nm + ":range", f"{nm}({pts}) = {r2!r} for planar points is not in [0,pi]")
+        well = nm not in ("cotan", "aspect_ratio") or abs(g3) <= 1e3
+        if nm in ("angle_3pts", "angle_2vec3D", "cotan") and (not any(d1) or not any(d2)):
+            well = False                 # the angle with a zero vector is a convention, only its range is asserted
+        if well:
+            ctx.check(g2 is not None and abs(g2 - g3) <= 1e-9 * max(1.0, abs(g3)), nm + ":planar-vs-embedded",
+                      f"{nm}({pts}) = {r2!r} for planar points but {r3!r} for the same points in the plane z=0")
     # ---- 2D
     u, w = case["u"], case["w"]
     fu, fw = fv(u), fv(w)
@@ -1053,7 +1165,7 @@ def fn_angle(case, ctx):
 
 
 # =============================================================================================== 5. rotations
-ANGLES = st.one_of(st.floats(min_value=-10, max_value=10, allow_nan=False, width=64),
+ANGLES = st.one_of(st.floats(min_value=-10, max_value=10, allow_nan=False, width=64), st.integers(-7, 7),
                    st.integers(-8, 8).map(lambda k: k * math.pi / 4),
                    st.sampled_from([0.0, 1e-13, -1e-13, 1e-9, 2 * math.pi, 100.0, -1000.0]))
 
@@ -1062,7 +1174,8 @@ ANGLES = st.one_of(st.floats(min_value=-10, max_value=10, allow_nan=False, width
 def rotation_case(draw):
     mode = draw(st.sampled_from(MODES))
     v3 = vec_st(mode, 3)
-    axis = draw(st.one_of(v3, st.sampled_from([[0.0, 0.0, 1.0], [0.0, 0.0, -1.0], [0.0, 0.0, -3.0], [1.0, 0.0, 0.0], [0.0, 0.0, 0.0], [0.0, 2.0, 0.0]])))
+    axis = draw(st.one_of(v3, st.sampled_from([[0.0, 0.0, 1.0], [0.0, 0.0, -1.0], [0.0, 0.0, -3.0], [1.0, 0.0, 0.0], [0.0, 0.0, 0.0], [0.0, 2.0, 0.0],
+                                                     [0.0, 0.0, 1.0000005], [0.6, 0.8000004, 0.0], [0.0, 0.9999995, 0.0]])))
     rv = st.lists(st.floats(-3, 3, allow_nan=False, width=64), min_size=3, max_size=3)
     return {"mode": mode, "v": draw(v3), "w": draw(v3), "axis": axis, "a": draw(ANGLES), "b": draw(ANGLES), "v2": draw(vec_st(mode, 2)),
             "form": draw(st.sampled_from(FORMS)), "Ra": draw(rv), "Rb": draw(rv)}
@@ -1175,7 +1288,8 @@ def maths_case(draw):
     cf = st.one_of(st.integers(-5, 5).map(float), st.floats(-100, 100, allow_nan=False, width=64))
     qi = st.integers(-9, 9).map(float)
     return {"a": draw(ang), "b": draw(ang), "c": [draw(cf), draw(cf)], "n": draw(st.integers(1, 9)),
-            "quad": [draw(qi), draw(qi), draw(qi)], "quadf": [draw(cf), draw(cf), draw(cf)]}
+            "quad": [draw(qi), draw(qi), draw(qi)], "quadf": [draw(cf), draw(cf), draw(cf)],
+            "ai": draw(st.integers(-60, 60)), "bi": draw(st.integers(-60, 60)), "ints": draw(st.booleans())}
 
 
 def fn_maths(case, ctx):
@@ -1202,6 +1316,14 @@ def fn_maths(case, ctx):
             ctx.check(abs(a - b - g - 2 * PI * round((a - b - g) / (2 * PI))) <= 4e-12 * max(1.0, abs(a), abs(b)), "angle_diff:congruent",
                       f"angle_diff({a!r},{b!r}) = {g!r} is not congruent to a-b = {a - b!r} mod 2pi")
     ctx.label("angle=large" if abs(a) > 100 else "angle=small")
+    # integer-valued arguments given as Python ints behave like the same floats
+    ai, bi = case.get("ai", 0), case.get("bi", 0)
+    for nm, f, ia, fa_ in (("principal_angle", maths.principal_angle, (ai,), (float(ai),)), ("angle_diff", maths.angle_diff, (ai, bi), (float(ai), float(bi)))):
+        ok, ri = gcall(ctx, nm, f, *ia)
+        ok2, rf = gcall(ctx, nm, f, *fa_)
+        if ok and ok2:
+            ctx.check(real(ri) is not None and real(rf) is not None and abs(real(ri) - real(rf)) <= 1e-12 and -PI <= real(ri) <= PI, nm + ":int-argument",
+                      f"{nm}{ia} = {ri!r} but {nm}{fa_} = {rf!r}")
     # ---- roots
     c, n = complex(*case["c"]), case["n"]
     if abs(c) >= 1e-6:
@@ -1220,6 +1342,9 @@ def fn_maths(case, ctx):
         ctx.label("roots=zero-input")
     # ---- quadratic (integer coefficients: the discriminant is exact)
     A, B, C = case["quad"]
+    if case.get("ints"):
+        A, B, C = int(A), int(B), int(C)
+        ctx.label("quadratic=int-typed")
     ok, rs = gcall(ctx, "solve_quadratic", maths.solve_quadratic, A, B, C)
     if ok and ctx.check(isinstance(rs, list) and all(real(x) is not None for x in rs), "solve_quadratic:type", f"{rs!r}"):
         delta = B * B - 4 * A * C
@@ -1286,6 +1411,7 @@ def m_ops(D):
         mop("box.get", M_BOX, st.sampled_from(["mini", "maxi", "span", "center", "dim", "is_empty", "repr"])),
         mop("box.binary", M_BOX, M_BOX, st.sampled_from(["intersection", "and", "do_intersect", "union", "or"])),
         mop("box.pad", M_BOX, st.one_of(M_NUM, VD)), mop("box.pad", M_BOX, st.one_of(M_NUM.map(abs), VD)),
+        mop("box.iop", M_BOX, M_BOX, st.sampled_from(["ior", "iand"])), mop("AABB.point", VD),
         mop("box.contains_point", M_BOX, VD), mop("box.project", M_BOX, VD), mop("box.distance", M_BOX, VD, M_WHICH),
     ]
     n_any = st.sampled_from([2, 3, 3, 4])
@@ -1347,6 +1473,13 @@ def machine_case(draw):
         # a box wrapping caller arrays is padded; a box built from another box's corners is padded; a corner is read, then the box is padded
         st.tuples(mop("AABB", arr(), arr()), mop("box.pad", last, padarg)).map(list),
         st.tuples(mop("AABB.frombox", M_BOX), mop("box.pad", last, padarg)).map(list),
+        # augmented assignment (box |= other, box &= other) on a box wrapping caller arrays / built from another box's corners / built
+        # from one array used for both corners
+        st.tuples(mop("AABB", arr(), arr()), mop("box.iop", last, M_BOX, st.sampled_from(["ior", "iand"]))).map(list),
+        st.tuples(mop("AABB.frombox", M_BOX), mop("box.iop", last, M_BOX, st.sampled_from(["ior", "iand"]))).map(list),
+        st.tuples(mop("AABB.point", arr()), mop("AABB", arr(), arr()), mop("box.iop", st.just(["b", -2]), last, st.just("ior")),
+                  mop("box.get", st.just(["b", -2]), st.sampled_from(["mini", "maxi", "span"]))).map(list),
+        st.tuples(mop("AABB", arr(), arr()), mop("AABB.frombox", last), mop("box.iop", st.sampled_from([["b", -1], ["b", -2]]), M_BOX, st.sampled_from(["ior", "iand"]))).map(list),
         st.tuples(mop("AABB", arr(), arr()), mop("AABB.frombox", last), mop("box.pad", st.sampled_from([["b", -1], ["b", -2]]), padarg)).map(list),
         st.tuples(mop("box.get", M_BOX, st.sampled_from(["mini", "maxi"])), mop("box.pad", M_BOX, padarg)).map(list),
         # a box computed from two boxes (same box twice / a copy / a padded copy / a unit cube inside a larger box) is padded
@@ -1468,6 +1601,13 @@ def fn_machine(case, ctx):
             return o
         return spec
 
+    def iop(b, o, kind):
+        if kind == "ior":
+            b |= o
+        else:
+            b &= o
+        return b
+
     def bget(b, what):
         return {"mini": lambda: b.mini, "maxi": lambda: b.maxi, "span": lambda: b.span, "center": lambda: b.center, "dim": lambda: b.dim,
                 "is_empty": b.is_empty, "repr": lambda: repr(b)}[what]()
@@ -1477,7 +1617,7 @@ def fn_machine(case, ctx):
                 "union": lambda: AABB.union(a, b), "or": lambda: a | b}[what]()
 
     TABLE = {
-        "AABB": lambda a, b: AABB(a, b), "AABB.frombox": lambda b: AABB(b.mini, b.maxi), "AABB.unit_cube": AABB.unit_cube, "AABB.infinite": AABB.infinite,
+        "AABB": lambda a, b: AABB(a, b), "AABB.point": lambda a: AABB(a, a), "box.iop": iop, "AABB.frombox": lambda b: AABB(b.mini, b.maxi), "AABB.unit_cube": AABB.unit_cube, "AABB.infinite": AABB.infinite,
         "AABB.of_points": AABB.of_points, "AABB.of_mesh": lambda p: AABB.of_mesh(mesh, p), "box.get": bget, "box.binary": bbin,
         "box.pad": lambda b, p: b.pad(p), "box.contains_point": lambda b, p: b.contains_point(p), "box.project": lambda b, p: b.project(p),
         "box.distance": lambda b, p, w: b.distance(p, w),
@@ -1496,6 +1636,7 @@ def fn_machine(case, ctx):
                "aspect_ratio", "distance_to_segment2D", "project_to_plane"):
         TABLE[nm] = getattr(geom, nm)
     INPLACE_VEC = ("vec.set", "vec.normalize")
+    INPLACE_BOX = ("box.pad", "box.iop")            # the receiver (first argument) is the one box the call is documented to modify
 
     raised_at = None
     n_raised = 0
@@ -1514,7 +1655,7 @@ def fn_machine(case, ctx):
             del handles[:]
             args = [resolve(s, step) for s in op[1:]]
         where = f"step {step}: {name}({', '.join(show(a) if not isinstance(a, AABB) else repr(a) for a in args)})"
-        receiver = args[0] if name in INPLACE_VEC or name == "box.pad" else None
+        receiver = args[0] if name in INPLACE_VEC or name in INPLACE_BOX else None
         # ---- snapshots
         arg_snaps = [snap(a) for a in args]
         arr_snaps = [snap(a) for a in arrays]
@@ -1525,7 +1666,7 @@ def fn_machine(case, ctx):
         if name in INPLACE_VEC and isinstance(receiver, np.ndarray):
             exempt_arr = {i for i, a in enumerate(arrays) if a is receiver or np.shares_memory(a, receiver)}
             exempt_box = {i for i, b in enumerate(boxes) if np.shares_memory(b.mini, receiver) or np.shares_memory(b.maxi, receiver)}
-        elif name == "box.pad" and isinstance(receiver, AABB):
+        elif name in INPLACE_BOX and isinstance(receiver, AABB):
             exempt_box = {handles[0]}            # the receiver handle only: no other box of the history may change
             if any(i != handles[0] and b is receiver for i, b in enumerate(boxes)):
                 ctx.label("pad:receiver-was-returned-for-another-box")
@@ -1591,7 +1732,12 @@ def fn_machine(case, ctx):
         if exc is None:
             if isinstance(res, np.ndarray) and any(isinstance(a, np.ndarray) and np.shares_memory(res, a) for a in args):
                 ctx.label("result-aliases-argument")
-            track(res, f"result of step {step} {name}")
+            if name == "box.iop":
+                if isinstance(res, AABB):
+                    boxes[handles[0]] = res             # 'b |= o' rebinds the caller's name b: same handle, possibly a new object
+                    ctx.label("iop:in-place" if res is receiver else "iop:new-object")
+            else:
+                track(res, f"result of step {step} {name}")
     ctx.label("raises=%s" % ("0" if n_raised == 0 else "1" if n_raised == 1 else "2+"))
 
 
